@@ -43,7 +43,8 @@ def _samples(f, pe, ty, tyt):
     if tyt.get("k") == "param":
         # `C: Into<Color>`: bound to a four-byte array
         mk = lambda v: ("array", tuple(mk_int("u8", x) for x in v))
-        return [mk((1, 2, 3, 255)), mk((200, 100, 50, 128))], {tyt["name"]: "[u8; 4]"}
+        # two arbitrary colours and the two documented defaults (opaque black modules on opaque white)
+        return [mk((1, 2, 3, 255)), mk((200, 100, 50, 128)), mk((0, 0, 0, 255)), mk((255, 255, 255, 255))], {tyt["name"]: "[u8; 4]"}
     if ty in ("usize", "u32", "u64", "u8", "u16"):
         return [mk_int(ty, 3), mk_int(ty, 11), mk_int(ty, 0)], None
     if ty == "f64":
@@ -202,6 +203,19 @@ def c14_p7(ctx, f, rid="C14.P7"):
                 sab, w1 = apply(S0, [(a, 0), (b, 1)])
                 sba, w2 = apply(S0, [(b, 1), (a, 0)])
                 w = w1 or w2
+                if not w and _norm(pe, sab) == _norm(pe, sba):
+                    # other value combinations (zero / default-valued samples): report the first that does not commute
+                    na, nb = len(calls[a][0]), len(calls[b][0])
+                    for ia, ib in ((2, 1), (0, 2), (2, 2), (3, 0), (0, 3), (2, 3)):
+                        if ia >= na or ib >= nb:
+                            continue
+                        sx, wx1 = apply(S0, [(a, ia), (b, ib)])
+                        sy, wx2 = apply(S0, [(b, ib), (a, ia)])
+                        if wx1 or wx2:
+                            continue
+                        if _norm(pe, sx) != _norm(pe, sy):
+                            sab, sba = sx, sy
+                            break
                 if w:
                     if w[0] == "top":
                         und.setdefault(w[1], []).append("%s/%s" % (name(a), name(b)))
